@@ -21,6 +21,7 @@ class Chooser:
         self.prefix = list(prefix)
         self.expect = list(expect)  # (n, label) recorded when the prefix was discovered
         self.trace = []  # (n, label, choice)
+        self.diverged = None  # latched: choose() may run inside callbacks whose exceptions the event loop swallows
 
     def choose(self, n, label=""):
         i = len(self.trace)
@@ -28,10 +29,12 @@ class Chooser:
             raise HarnessError(f"choice point {label!r} with no alternatives")
         if i < len(self.prefix):
             c = self.prefix[i]
-            if i < len(self.expect) and self.expect[i] != (n, label):
-                raise ReplayDivergence(f"choice point {i}: replay met {(n, label)}, recorded {self.expect[i]}")
+            if i < len(self.expect) and self.expect[i] != (n, label) and self.diverged is None:
+                self.diverged = f"choice point {i}: replay met {(n, label)}, recorded {self.expect[i]}"
             if c >= n:
-                raise ReplayDivergence(f"choice point {i}: recorded choice {c} of {n} ({label})")
+                if self.diverged is None:
+                    self.diverged = f"choice point {i}: recorded choice {c} of {n} ({label})"
+                c = n - 1
         else:
             c = 0
         self.trace.append((n, label, c))
@@ -46,8 +49,12 @@ def default_cost(label, choice):
     return 1 if choice else 0
 
 
-def explore(run, on_exec, bound=None, cost=default_cost, fixed_prefix=(), limit=None):
-    """Run every execution within the bound. Returns (executions, capped)."""
+def explore(run, on_exec, bound=None, cost=default_cost, fixed_prefix=(), limit=None, on_diverge=None):
+    """Run every execution within the bound. Returns (executions, capped).
+
+    A replayed prefix that does not meet the recorded choice points is a divergence: by default a hard
+    error; with `on_diverge(ch, message)` the caller records it (the execution's oracle has already run
+    through on_exec) and the diverged execution is not expanded further."""
     stack = [(list(fixed_prefix), [])]
     nfixed = len(fixed_prefix)
     execs = 0
@@ -60,8 +67,13 @@ def explore(run, on_exec, bound=None, cost=default_cost, fixed_prefix=(), limit=
         if limit is not None and execs >= limit:
             return execs, bool(stack)
         tr = ch.trace
-        if len(tr) < len(prefix):
-            raise ReplayDivergence(f"execution ended after {len(tr)} choice points, prefix has {len(prefix)}")
+        if ch.diverged is None and len(tr) < len(prefix):
+            ch.diverged = f"execution ended after {len(tr)} choice points, prefix has {len(prefix)}"
+        if ch.diverged is not None:
+            if on_diverge is None:
+                raise ReplayDivergence(ch.diverged)
+            on_diverge(ch, ch.diverged)
+            continue
         acc = 0
         costs = []
         for n, label, c in tr:
